@@ -45,6 +45,12 @@ func (k msgServer) AddFeeToDispute(goCtx context.Context,
 	if dispute.FeeTotal.GTE(dispute.SlashAmount) {
 		return nil, types.ErrDisputeFeeAlreadyMet
 	}
+	// a fee can only be added while the dispute is waiting to be funded: executing a vote against the dispute
+	// raises the stored slash amount above the fee total, and completing that "fee" would slash the reporter
+	// again and restart the vote of an executed dispute
+	if dispute.DisputeStatus != types.Prevote {
+		return nil, types.ErrDisputeFeeAlreadyMet
+	}
 
 	// validate fee amount
 	if dispute.FeeTotal.Add(msg.Amount.Amount).GT(dispute.SlashAmount) {
